@@ -79,4 +79,15 @@ EmitSingles ==
                        marker |-> MarkerFor(slot, s),
                        path |-> IF slot = "device-path" THEN s ELSE Cp("/dev/mdt0"),
                        path0 |-> IF slot = "device-path" THEN MarkerPlain ELSE Cp("/dev/mdt0")]))
+
+\* the same characters written as an OCTAL ESCAPE of a format (the element Ascii(n) of the public types): the
+\* character must reach the output verbatim whatever it means to the string syntax or to `format`
+AsciiCps == {c \in SingleCps : c <= 511} \cup {256, 305, 383, 511}
+EmitAscii ==
+  vSeq = <<>> =>
+    \A c \in AsciiCps :
+      PrintT(ToJson([t |-> [k |-> "printf", f |-> <<EFld("f"), EAscii(c), EFld("s"), Nl>>],
+                     t0 |-> [k |-> "printf", f |-> <<EFld("f"), ELit(MarkerPlain), EFld("s"), Nl>>],
+                     o |-> OptsInit, slot |-> "fmt-ascii", u |-> <<c>>, marker |-> MarkerPlain,
+                     path |-> Cp("/dev/mdt0"), path0 |-> Cp("/dev/mdt0")]))
 =============================================================================
